@@ -161,7 +161,9 @@ class Desugar(ast.NodeTransformer):
         return node
 
 
-_PURE_CALLS = {"str", "repr", "len", "format", "type", "float", "int", "round", "id", "abs", "min", "max", "sum", "tuple", "list"}
+_PURE_CALLS = {"str", "repr", "len", "format", "type", "float", "int", "round", "id", "abs", "min", "max", "sum", "tuple", "list",
+               "range", "enumerate", "zip", "sorted", "any", "all", "bool", "dict", "set", "isinstance", "hasattr", "getattr", "callable", "reversed", "map", "filter"}
+_PURE_MODULES = ("np", "numpy", "math")
 _LOG_METHODS = {"debug", "info", "warning", "warn", "error", "exception", "critical", "log"}
 _INERT_CONTEXTS = {"errstate", "catch_warnings", "nullcontext", "printoptions"}
 
@@ -180,19 +182,27 @@ class Inert(ast.NodeTransformer):
         self.loggers = set(loggers)
         self.count = 0
 
-    def _args_pure(self, call):
-        for a in list(call.args) + [k.value for k in call.keywords]:
-            for n in ast.walk(a):
-                if isinstance(n, ast.Call):
-                    d = _dotted(n.func)
-                    if d in _PURE_CALLS:
-                        continue
-                    if isinstance(n.func, ast.Attribute) and n.func.attr in ("format", "join") and isinstance(n.func.value, ast.Constant):
-                        continue
+    def _expr_pure(self, a):
+        """no call except builtins / numpy / math functions (without out=) and string formatting: evaluating it
+        changes nothing"""
+        for n in ast.walk(a):
+            if isinstance(n, ast.Call):
+                d = _dotted(n.func)
+                if any(k.arg == "out" for k in n.keywords):
                     return False
-                if isinstance(n, (ast.NamedExpr, ast.Await, ast.Yield, ast.YieldFrom)):
-                    return False
+                if d in _PURE_CALLS:
+                    continue
+                if d is not None and (d.split(".")[0] in _PURE_MODULES or d.rpartition(".")[0] in self.loggers or d.split(".")[0] == "logging"):
+                    continue
+                if isinstance(n.func, ast.Attribute) and n.func.attr in ("format", "join", "keys", "values", "items", "get", "copy", "min", "max", "sum", "mean", "any", "all", "tolist", "lower", "upper", "strip"):
+                    continue
+                return False
+            if isinstance(n, (ast.NamedExpr, ast.Await, ast.Yield, ast.YieldFrom)):
+                return False
         return True
+
+    def _args_pure(self, call):
+        return all(self._expr_pure(a) for a in list(call.args) + [k.value for k in call.keywords])
 
     def _inert_stmt(self, st):
         if isinstance(st, ast.Pass):
@@ -230,6 +240,39 @@ class Inert(ast.NodeTransformer):
         if isinstance(node, ast.Try):
             for h in node.handlers:
                 self.generic_visit(h)
+        return node
+
+    def visit_FunctionDef(self, node):
+        before = self.count
+        self.generic_visit(node)
+        if self.count == before:
+            return node          # nothing was dropped here: no local can have become dead
+        # locals that were only read by statements dropped above (a diagnostic computed for a log record): their
+        # pure assignments are dead now
+        for _ in range(4):
+            loads = {n.id for n in ast.walk(node) if isinstance(n, ast.Name) and isinstance(n.ctx, ast.Load)}
+            dropped = [0]
+
+            def prune(stmts):
+                out = []
+                for st in stmts:
+                    if isinstance(st, ast.Assign) and len(st.targets) == 1 and isinstance(st.targets[0], ast.Name) and st.targets[0].id not in loads \
+                            and self._expr_pure(st.value) and not isinstance(st.value, (ast.Yield,)):
+                        dropped[0] += 1
+                        continue
+                    for fld in ("body", "orelse", "finalbody"):
+                        b = getattr(st, fld, None)
+                        if isinstance(b, list) and b and isinstance(b[0], ast.stmt) and not isinstance(st, (ast.FunctionDef, ast.ClassDef)):
+                            nb = prune(b)
+                            if not nb and fld == "body":
+                                nb = [ast.copy_location(ast.Pass(), b[0])]
+                            setattr(st, fld, nb)
+                    out.append(st)
+                return out
+            node.body = prune(node.body) or [ast.copy_location(ast.Pass(), node)]
+            if not dropped[0]:
+                break
+            self.count += dropped[0]
         return node
 
     def visit_AnnAssign(self, node):
@@ -277,6 +320,9 @@ class Inert(ast.NodeTransformer):
 
     def visit_If(self, node):
         self.generic_visit(node)
+        if not node.orelse and all(isinstance(st, ast.Pass) for st in node.body) and self._expr_pure(node.test):
+            self.count += 1           # nothing left under a side-effect-free test (`if logger.isEnabledFor(...)`)
+            return None
         if not node.orelse and len(node.body) == 1 and isinstance(node.body[0], ast.Raise):
             calls = [_dotted(n.func) for n in ast.walk(node.test) if isinstance(n, ast.Call)]
             if calls and all(c in ("isinstance", "callable", "issubclass", "type", "len") for c in calls) and any(c in ("isinstance", "callable", "issubclass") for c in calls):
@@ -471,3 +517,35 @@ def canonical_roles(trees):
             if isinstance(n, ast.Attribute) and n.attr in ren and isinstance(n.value, ast.Name) and n.value.id in ("self",):
                 n.attr = ren[n.attr]
     return ren
+
+
+def normalise_super(trees):
+    """super().m(args) / super(X, self).m(args) inside a method of a class with ONE base  ->  Base.m(self, args):
+    with single inheritance the two are the same call, and every engine already follows the explicit form.
+    Classes with several bases are left alone.  Returns the number of calls rewritten."""
+    count = 0
+    for tree in trees:
+        for cls in ast.walk(tree):
+            if not isinstance(cls, ast.ClassDef) or len(cls.bases) != 1 or cls.keywords:
+                continue
+            base = cls.bases[0]
+            if not isinstance(base, (ast.Name, ast.Attribute)):
+                continue
+            for fn in cls.body:
+                if not isinstance(fn, ast.FunctionDef) or not fn.args.args:
+                    continue
+                if any(isinstance(d, ast.Name) and d.id in ("staticmethod", "classmethod") for d in fn.decorator_list):
+                    continue
+                sn = fn.args.args[0].arg
+                for n in ast.walk(fn):
+                    if isinstance(n, ast.Call) and isinstance(n.func, ast.Attribute) and isinstance(n.func.value, ast.Call) \
+                            and isinstance(n.func.value.func, ast.Name) and n.func.value.func.id == "super" and len(n.func.value.args) in (0, 2):
+                        sup = n.func.value
+                        if len(sup.args) == 2 and not (isinstance(sup.args[0], ast.Name) and sup.args[0].id == cls.name and isinstance(sup.args[1], ast.Name) and sup.args[1].id == sn):
+                            continue
+                        n.func.value = ast.copy_location(copy.deepcopy(base), sup)
+                        for x in ast.walk(n.func.value):
+                            ast.copy_location(x, sup)
+                        n.args = [ast.copy_location(ast.Name(id=sn, ctx=ast.Load()), sup)] + list(n.args)
+                        count += 1
+    return count
